@@ -237,6 +237,8 @@ Section Generic.
 
     Variable score : st -> N -> Z.
     Variable crossed : Z -> Z -> bool.
+    (* comparePopScore only moves the tip pointer (activeChain_.setTip), the counter is untouched *)
+    Hypothesis Inv_tip_only : forall s t, Inv s -> Inv (mkSt P cmd (blocks _ _ s) (root _ _ s) t (napp _ _ s) (pst _ _ s)).
 
     Lemma Inv_compare_fork : forall s c bc bt s' r,
         Inv s -> compare_fork P cmd exec unexec score crossed s c bc bt = Ok (s', r) -> Inv s'.
@@ -252,7 +254,7 @@ Section Generic.
       - dbind H. destruct a as [s2 vf]. pose proof (Inv_unapplyWhile _ _ _ _ _ _ _ H1 E0) as H2.
         dbind H. pose proof (Inv_unapply_range _ _ _ _ H2 E1) as H3.
         dbind H. destruct a0 as [s4 ok2]. pose proof (Inv_apply_range _ _ _ _ _ H3 E2) as H4.
-        destruct ok2; [inversion H; subst; apply Inv_tip; exact H4|].
+        destruct ok2; [inversion H; subst; apply Inv_tip_only; exact H4|].
         dbind H. pose proof (Inv_unapply_range _ _ _ _ H4 E3) as H5.
         dbind H. destruct a1 as [s6 ok3]. pose proof (Inv_apply_range _ _ _ _ _ H5 E4) as H6.
         destruct ok3; inversion H; subst. exact H6.
@@ -271,7 +273,7 @@ Section Generic.
       destruct (anc_at cmd (blocks P cmd s) _ c (b_h cmd bt)) as [a|].
       - destruct (N.eqb a (tip P cmd s)).
         + dbind H. destruct a0 as [s1 ok]. pose proof (Inv_apply_range _ _ _ _ _ HI E) as H1.
-          destruct ok; inversion H; subst; [apply Inv_tip|]; exact H1.
+          destruct ok; inversion H; subst; [apply Inv_tip_only|]; exact H1.
         + eapply Inv_compare_fork; eassumption.
       - eapply Inv_compare_fork; eassumption.
     Qed.
@@ -555,7 +557,8 @@ Qed.
 Lemma canon_compare : forall base sc cr s c s' r, canon base s -> c_compare sc cr s c = Ok (s', r) -> canon base s'.
 Proof.
   intros base sc cr s c s' r HC H.
-  exact (Inv_compare pstate ccmd cexec cunexec (canon base) (canon_apply base) (canon_unapply base) (canon_tip base) sc cr s c s' r HC H).
+  exact (Inv_compare pstate ccmd cexec cunexec (canon base) (canon_apply base) (canon_unapply base) sc cr
+           (fun s0 t H0 => canon_tip base s0 t _ H0) s c s' r HC H).
 Qed.
 
 Lemma canon_run : forall base ops s s', canon base s -> run s ops = Ok s' -> canon base s'.
